@@ -6,6 +6,18 @@ HERE = os.path.dirname(os.path.dirname(os.path.abspath(__file__)))
 
 # id -> (level category, technique, level text, level note, design ref)
 CHECKS = {
+ "C01": ("fault_enumeration", "fault-space enumeration of forged handshake inputs x receiver stages on real PeerCrypto objects and nodes; exhaustive trust-graph enumeration through real handshakes",
+         "Receivers prepared by genuine exchanges in the five stages (fresh, awaiting pong, awaiting peng, completed-lingering, closed; retry counters non-zero) receive, for genuine in-context and twin-run ping/pong/peng: every single-bit flip, every truncation with zero and junk buffer tail, well-formed messages of every stage value signed by an untrusted key (also grafted onto the trusted key's hash prefix), 0xff + every string of length <= 2, valid prefix + every tag x extreme length: each must return an error and leave the receiver's view unchanged. All 4096 trust graphs (4 key pairs, own key x 16 trusted subsets, both parties, both initiators) run as real handshakes: both complete iff each key is in the other's effective trusted set, otherwise no core/rotation state exists. Node level: 4 victim states x in-context genuine datagrams x bit flips/truncations/untrusted messages from the peer's and an unknown address, with C08's no-state/no-reply/no-write oracle.",
+         "Trusted: Ed25519 (ring). A truncation that the buffer tail completes to the genuine message is a replay (C09), not a forgery.",
+         "DESIGN.md section 5 C01"),
+ "C02": ("fault_enumeration", "fault-space enumeration of altered / misdirected sealed datagrams on real CryptoCore pairs and 3-node meshes, plus exhaustive length/configuration enumeration for round trip and cleartext search",
+         "Real CryptoCore pairs per cipher: all payload lengths 0..=300 plus large sizes x 3 buffer offsets round-trip byte-identically and show no 8-byte cleartext window; for lengths 0..=48 (300 thorough) every single-bit flip (key id, counter, ciphertext, tag), every truncation, reflection to the sealer, injection into a pair with other keys and forgeries sealed with guessable keys under every key id and half must fail and leave the replay window unchanged. 64 negotiated configurations through real handshakes (ciphers, plain/plain, plain on one side). Router and switch 3-node meshes: the wire capture contains no window of any payload or claim; each selected wire datagram is bit-flipped, truncated, reflected and injected into each of the 6 ordered connections and from an unknown source: no interface write, no reply, no state change. Datagrams of every message type from not-yet-established senders never reach the interface or the routing state.",
+         "Trusted: ring AEAD. Confidentiality is decided as absence of 8-byte cleartext windows in explored captures.",
+         "DESIGN.md section 5 C02"),
+ "C09": ("fault_enumeration", "fault-space enumeration on recorded runs: captured datagram x re-injection offset x claimed source x variant, one fresh real node execution each, with a 400 s probe phase",
+         "Scenarios (2 nodes single open, 2 nodes dual open, 3-node mesh; router mode with claims) are executed with a wire capture; for every selected datagram (all handshake datagrams, first rotation/node-info/data datagrams, mid-run data, everything around the first key rotation, the last ones) x 12 offsets {0..600 s} x claimed source {original, another peer, unknown} x variants {verbatim, counter+1/+1000/max, key-id edit, last-bit flip, stage edit, truncation} x target {destination, reflected to sender} a fresh execution runs to the injection time, injects, and then sends one packet per second in every direction for 400 s: all pairs stay connected and every packet is delivered exactly once (one extra copy of an earlier packet is tolerated for in-window replays). Injection before the mesh is complete is outside the statement and skipped.",
+         "Trusted: the k-th wire datagram has the same role in every execution (deterministic scheduling). Violations that depend on the order of uncontrolled random counters are replayed 8 times and reported with their reproduction rate.",
+         "DESIGN.md section 5 C09"),
  "C05": ("model_checking", "explicit-state BFS by history replay over two real PeerCrypto handshake objects (object level) and over two real nodes (node level)",
          "Object level: all schedules over {A initiates, B initiates, deliver/duplicate/drop ANY of <= 4 in-flight datagrams, tick A/B x1/x61/x121, restart A/B} to depth 6 quick / 9 thorough for both salted-hash orientations plus a plain variant, on real PeerCrypto objects; objects returning a fatal handshake error are discarded as the node does. In every state: at most one completion per object; if both completed the same attempt (tracked by message lineage): same cipher, opposite nonce halves, exactly one rotation initiator, exchanged payloads, probes open both ways; from every state 125 loss-free ticks must bring two live objects to a common completed attempt.",
          "Trusted: canonical form (audited), lineage tracking in the harness. Two parties. The network in the fair suffix is reliable with bounded rate (32 datagrams/tick, 4 once a pong storm was seen).",
